@@ -76,6 +76,13 @@ def run(ctx):
                    ("symlink", rnd.choice([b"/z", b"../z", b"/z/w"]), b"/x/y")] + \
                   [("realpath", b"/x/y/" + c) for c in COMPS] + [("realpath", b"/x/y/f/" + c) for c in COMPS[:3]] + ops
         cases.append(t2.Case("c16-%d" % gi, cfg, graph_inits(cfg, ta, tb), ops))
+    # the kernel's hop limit: 41 passes through a link to its own directory (recorded finding K8)
+    for ci, cfg in enumerate(cfgs):
+        w = lambda v: t2.world_path(cfg, v)
+        pfx = t2.view_prefix(cfg)
+        inits = graph_inits(cfg, b"x", b"y") + [("L", w(b"/x/loop"), 0, 0, 9, (pfx + b"/x") if pfx else b"/x")]
+        cases.append(t2.Case("c16-hops-%d" % ci, cfg, inits,
+                             [("realpath", b"/x" + b"/loop" * k + b"/y") for k in (1, 20, 39, 40, 41, 45)]))
     impl, mod = t2.run_both("C16.graphs", cases, model=model_ok)
     res = {"name": "graphs", "n": 0, "mismatch": [], "oracle": [], "nontrivial": 0, "exhaustive": tier != "quick",
            "desc": "realPath (hook) on every path of up to 3 components over all symlink graphs with two links whose targets range over %d absolute/relative/dangling/cyclic/'..'/through-a-link targets, plus graphs changed by earlier operations; model compared on the resolved string; oracle from the OS: no symlink among the parents of the result, same inode as the caller's path; non-trivial = the path runs through a symlink" % len(TARGETS)}
